@@ -73,8 +73,8 @@ CHECKS.update({
          "every recorded signature must recover (in the spec) to exactly the signer's key with the right header flags, and every VerifyMessage answer must equal the reference for the signer's, foreign and perturbed inputs",
          TB + "; signatures from which no key can be recovered are outside the property", "DESIGN.md section 3 C14"),
  "C15": ("model_checking",
-         "Merkle.tla: the level-by-level algorithm model-checked by TLC equal to an independent top-down definition for every leaf count 1..300 over symbolic leaves; recorded merkle roots, witness roots, constructor outcomes and weights validated by TLC (Trace_Checks)",
-         "every leaf count to 300 at spec level; recorded blocks with the listed counts (with/without witness, duplicates)",
+         "Merkle.tla: the level-by-level algorithm model-checked by TLC equal to an independent top-down definition for every leaf count 1..300 over symbolic leaves; recorded merkle roots, witness roots, constructor outcomes and weights validated by TLC (Trace_Checks); spec -> code: the roots TLC computes for 1..300 concrete leaves (and with the last leaf repeated) compared with the library's tree builder (MC_MerkleReplay)",
+         "every leaf count to 300 at spec level and through the library's tree builder; recorded blocks with the listed counts (with/without witness, duplicates)",
          TB, "DESIGN.md section 3 C15"),
  "C16": ("model_checking",
          "Checks.tla (one predicate per consensus rule) with the rule catalogue model-checked by TLC (each violation falsifies exactly its rule); recorded CheckTransaction/CheckBlock calls on valid objects and every catalogue violation under each chain validated by TLC (Trace_Checks)",
